@@ -76,6 +76,13 @@ CLAIMED.update({
    "SSA symbolic execution with symbolic scheduler + SMT, native stress replay"),
 })
 
+CLAIMED.update({
+ "C03": ("DESIGN.md 5/C03",
+   "Value.Pull / Collection.Pull subscriptions opened at every possible moment relative to concurrent writers (symbolic scheduler), reader keeps receiving; quiescence by a sentinel write: last delivered value == Get (Value, backpressure, 1 writer x 2 writes and 2 writers x 1 write), lossy Value delivery eventually holds the final value, folded Collection view == List (1 writer, 3-4 operations, both delivery modes).",
+   "Trusted: symgo concurrency runtime with sleep sets, z3. The two-writer stale-end defect (publish after unlock) is recorded as KF-C03-1 and any other violation still alarms. Bound: <=2 writers; PullID, read masks and updates-only are outside.",
+   "SSA symbolic execution with symbolic scheduler + SMT, native stress replay"),
+})
+
 NOT_YET = {}
 
 NA = {
